@@ -348,7 +348,7 @@ def run_witness(binpath, w):
             return {"cmd": "reftest-lsp codeAction / check --fix <%d programs>" % len(progs), "exit": 0, "stdout": "", "stderr": "",
                     "reproduced": bool(bad_items), "why": "; ".join(bad_items[:4])[:1800], "n_inputs": len(progs),
                     "failing_inputs": [progs[i] for i, r in enumerate(res) if r][:6]}
-        elif kind == "wrap-dbg-corpus":
+        elif kind in ("wrap-dbg-corpus", "refactor-corpus"):
             # C21 bounded stand-in: wrap_in_dbg at every cursor position (every char boundary, empty selection) of each
             # program; each distinct wrapped program must parse, print the same standard output and end with the same
             # status as the original (dbg writes to standard error only)
@@ -370,7 +370,8 @@ def run_witness(binpath, w):
 
                 def wrap(o, f0=f0):
                     try:
-                        return o, subprocess.run([binpath, "reftest-wrap-in-dbg", f0, str(o), str(o)], capture_output=True, text=True, timeout=60, cwd=tmpdir)
+                        tmpl = w.get("command") or ["reftest-wrap-in-dbg", "{file}", "{offset}", "{offset}"]
+                        return o, subprocess.run([binpath] + [a.replace("{file}", f0).replace("{offset}", str(o)) for a in tmpl], capture_output=True, text=True, timeout=60, cwd=tmpdir)
                     except subprocess.TimeoutExpired:
                         return o, None
                 with ThreadPoolExecutor(max_workers=8) as ex:
@@ -378,7 +379,7 @@ def run_witness(binpath, w):
                 seen = {}
                 for o, p in wrapped:
                     if p is None or p.returncode == 101 or "panicked at" in (p.stderr or ""):
-                        bad_items.append("program %d offset %d: wrap_in_dbg crashed or timed out" % (pi, o))
+                        bad_items.append("program %d offset %d: the refactoring crashed or timed out" % (pi, o))
                         failing.append(w["input"][pi])
                         continue
                     if p.returncode != 0:
@@ -405,7 +406,7 @@ def run_witness(binpath, w):
                         continue
                     bad_items.append("program %d wrapped at offset %d (%r): %s" % (pi, o, text[max(0, o - 20):o + 30], why))
                     failing.append(text)
-            return {"cmd": "reftest-wrap-in-dbg / run <%d programs, %d wrapped variants>" % (len(jobs), n_wrapped), "exit": 0, "stdout": "", "stderr": "",
+            return {"cmd": "%s / run <%d programs, %d rewritten variants>" % ((w.get("command") or ["reftest-wrap-in-dbg"])[0], len(jobs), n_wrapped), "exit": 0, "stdout": "", "stderr": "",
                     "reproduced": bool(bad_items) or n_wrapped < w.get("min_inputs", 1), "why": ("; ".join(bad_items[:4]) if bad_items else "only %d wrapped variants" % n_wrapped)[:1800],
                     "n_inputs": n_wrapped, "failing_inputs": failing[:6]}
         elif kind == "check-matrix":
